@@ -177,6 +177,12 @@ Section Trace.
     intros Hin Hf. apply (In_nth_error (filter f l) x). apply filter_In. split; auto.
   Qed.
 
+  Lemma nth_by_path_after C p k ch : nth_by_path C p k = Some ch -> ch_after ch = p.
+  Proof.
+    unfold nth_by_path. intro H. apply nth_error_In in H. apply filter_In in H. destruct H as [_ H].
+    apply String.eqb_eq. exact H.
+  Qed.
+
   Lemma member_is_observed C ch : In ch C -> exists k, nth_by_path C (ch_after ch) k = Some ch.
   Proof.
     intro Hin. unfold nth_by_path. apply in_filter_nth; [apply -> in_rev; exact Hin | apply String.eqb_refl].
